@@ -82,6 +82,8 @@ def run(ctx):
              'what is transferred is what is accounted for (the pipe route of header_seek skips by reading and must not swallow bytes of the following chunk)', floor=100)
     from engine.iocount import io_count
     ctx.require(io_count(ctx, prog) >= 100, 'too few accounted transfers found')
+    from engine.fixture import generic_fixture as _gf
+    _gf(ctx, [('IO-COUNT', io_count, 'bad_iocount')])
 
     from engine.run import borrow
     borrow(ctx, 'C09', ['WRAPPER'], 'the wrappers\' handling of a short or failed transfer: count returned = count accounted for, failing re-seek returns 0')
